@@ -39,6 +39,9 @@ def sym_char(e, name, exclude_nul=False):
     return Int(t, 32, False, ('char',))
 
 
+_CLASS_CACHE = {}
+
+
 def sym_char_classes(e, name, specials, exclude=()):
     """A symbolic character, forked at creation into: each character of `specials` (concrete) and
     "any other scalar value" (symbolic, constrained to differ from all specials and `exclude`).
@@ -46,10 +49,15 @@ def sym_char_classes(e, name, specials, exclude=()):
     engine branch, so the solver covers every class."""
     n = len(specials)
     k = None
-    t = z3.BitVec(name, 32)
-    conds = [t == ord(s) for s in specials]
-    other = z3.And([VALID_CHAR(t)] + [t != ord(s) for s in specials] + [t != ord(x) for x in exclude])
-    k = e.branch(conds + [other])
+    ck = (name, specials if isinstance(specials, str) else tuple(specials), exclude if isinstance(exclude, str) else tuple(exclude))
+    ent = _CLASS_CACHE.get(ck)
+    if ent is None:
+        t = z3.BitVec(name, 32)
+        conds = [t == ord(s) for s in specials]
+        other = z3.And([VALID_CHAR(t)] + [t != ord(s) for s in specials] + [t != ord(x) for x in exclude])
+        ent = _CLASS_CACHE[ck] = (t, conds + [other])
+    t, allc = ent
+    k = e.branch(allc)
     if k < n:
         return Int(ord(specials[k]), 32, False, ('char',)), t
     return Int(t, 32, False, ('char',)), t
